@@ -215,6 +215,172 @@ theorem written_json_valid (dateOk : String → Bool) (t : WTable) (hwf : t.wfb 
   · simp [crossCheck, l6, l4, pyLen, pyIter, pyIndex, pyEqNat, hol]
   · simp [crossCheck, l6, l5, pyLen, pyIter, pyIndex, pyEqNat, hsl]
 
+/-! ### a valid numeric document loads -/
+
+theorem matrixOf_ok {kvs : KVs} (F : ValidFacts kvs) (hnd : F.dt = .int ∨ F.dt = .float)
+    {l : List J} (hdv : F.dv = .arr l) :
+    ∃ g, matrixOf F.lr.length F.lc.length (matrixTypeIs (.obj kvs) "dense") (.arr l) = some g ∧
+      g.length = F.lr.length ∧ ∀ row ∈ g, row.length = F.lc.length := by
+  cases l with
+  | nil =>
+    refine ⟨(List.range F.lr.length).map (fun _ => (List.range F.lc.length).map (fun _ => (0 : Rat))),
+      by simp [matrixOf], by simp, ?_⟩
+    intro row hrow
+    simp only [List.mem_map, List.mem_range] at hrow
+    obtain ⟨_, _, rfl⟩ := hrow
+    simp
+  | cons x xs =>
+    have hnr := F.hnr
+    have hnc := F.hnc
+    rcases F.hmv with hm | hm
+    · have hmt := F.hmt; rw [hm] at hmt
+      have hnd' : matrixTypeIs (.obj kvs) "dense" = false := by simp [matrixTypeIs, topLookup, hmt]
+      obtain ⟨l', hl', hall⟩ := validSparse_true F.het F.hdt F.hshape (validData_sparse hmt F.hvd)
+      rw [hdv] at hl'
+      simp only [pyIter, Option.some.injEq] at hl'
+      subst hl'
+      rw [List.all_eq_true] at hall
+      obtain ⟨es, hes, _, hin⟩ := mapOpt_all entryOf
+        (fun e => entryInRange F.lr.length F.lc.length e = true) (x :: xs) (by
+          intro e he
+          obtain ⟨a, b, v, rfl, hi, h1, h2, h3, h4⟩ := coordOk_true (hall e he)
+          obtain ⟨q, hq, _⟩ := isInst_numeric hnd hi
+          refine ⟨(a, b, q), by simp [entryOf, hq], ?_⟩
+          simp only [entryInRange, Bool.and_eq_true, decide_eq_true_eq]
+          omega)
+      have hall' : es.all (entryInRange F.lr.length F.lc.length) = true := by
+        rw [List.all_eq_true]; exact hin
+      have hg := length_gridOfEntries F.lr.length F.lc.length es
+      exact ⟨_, by simp [matrixOf, hnd', hes, hall'], hg.1, hg.2⟩
+    · have hmt := F.hmt; rw [hm] at hmt
+      have hd' : matrixTypeIs (.obj kvs) "dense" = true := by simp [matrixTypeIs, topLookup, hmt]
+      obtain ⟨l', hl', hrows, hlen⟩ := validDense_true F.het F.hdt F.hshape (validData_dense hmt F.hvd)
+      rw [hdv] at hl'
+      simp only [pyIter, Option.some.injEq] at hl'
+      subst hl'
+      have hrows' := denseRows_true _ hrows
+      obtain ⟨g, hg, hgl, hgr⟩ := mapOpt_all denseRowVals (fun vals => vals.length = F.lc.length) (x :: xs) (by
+        intro row hrow
+        obtain ⟨els, he, hlen', hall, hne⟩ := hrows' row hrow
+        cases els with
+        | nil => exact absurd rfl hne
+        | cons e0 es0 =>
+          have h0 : isInst F.dt e0 = true := by
+            rw [List.all_eq_true] at hall; exact hall e0 (by simp)
+          obtain ⟨_, _, hs0⟩ := isInst_numeric hnd h0
+          have hrow' := pyIter_nonstr_mem he (x := e0) (by simp) hs0
+          subst hrow'
+          obtain ⟨vals, hvals, hvl, _⟩ := mapOpt_all numVal (fun _ => True) (e0 :: es0) (by
+            intro z hz
+            rw [List.all_eq_true] at hall
+            obtain ⟨q, hq, _⟩ := isInst_numeric hnd (hall z hz)
+            exact ⟨q, hq, trivial⟩)
+          refine ⟨vals, by simp [denseRowVals, hvals], ?_⟩
+          have : ((e0 :: es0).length : Int) = (F.lc.length : Int) := by rw [hlen', hnc]
+          omega)
+      have hgl' : g.length = F.lr.length := by
+        have : ((x :: xs).length : Int) = (F.lr.length : Int) := by rw [hlen, hnr]
+        omega
+      have hall' : g.all (fun r => r.length == F.lc.length) = true := by
+        rw [List.all_eq_true]; intro r hr; simp [hgr r hr]
+      exact ⟨g, by simp [matrixOf, hd', hg, hgl', hall'], hgl', hgr⟩
+
+/-- **A document with a numeric element type that the validator reports valid loads**, and the
+    loaded table has the declared IDs in order, the declared shape and the declared values (sparse:
+    each cell is the sum of the entries naming it; dense: the rows as written).
+    `_partial`: two guards beyond the property's own (`numericElem`): the IDs are text
+    (`idsAreStrings`; the validator accepts any truthy JSON value as an ID) and `data` is a JSON list
+    (`dataIsList`; the validator iterates any iterable, see `valid_json_unloadable_witness`). -/
+theorem valid_json_loads_partial (dateOk : String → Bool) (j : J)
+    (hv : validateJson dateOk j = .valid) (hnum : numericElem j = true)
+    (hids : idsAreStrings j = true) (hdl : dataIsList j = true) :
+    ∃ t, loadJson j = some t ∧ t.obs = idsOf j "rows" ∧ t.samp = idsOf j "columns" ∧
+      (t.obs.all isStr = true ∧ t.samp.all isStr = true) ∧
+      declShape j = some ((t.obs.length : Int), (t.samp.length : Int)) ∧
+      t.grid.length = t.obs.length ∧ (∀ r ∈ t.grid, r.length = t.samp.length) ∧
+      declaredGrid j t.obs.length t.samp.length = some t.grid := by
+  obtain ⟨kvs, rfl, hc⟩ := validateJson_valid hv
+  obtain ⟨F⟩ := validFacts hc
+  have hR := records_eq F.hrows F.hir
+  have hC := records_eq F.hcols F.hic
+  obtain ⟨r1, _, r3, r4, _⟩ := checkRecords_true _ _ F.hrr
+  obtain ⟨s1, _, s3, s4, _⟩ := checkRecords_true _ _ F.hrc
+  rw [List.all_eq_true] at r1 s1 r3 s3
+  obtain ⟨hro, hrol⟩ := mapOpt_filterMap (fun r => getItem r "id") F.lr
+    (fun x hx => (recordHasFields_some (r1 x hx)).1)
+  obtain ⟨hrm, _⟩ := mapOpt_filterMap (fun r => getItem r "metadata") F.lr
+    (fun x hx => (recordHasFields_some (r1 x hx)).2)
+  obtain ⟨hco, hcol⟩ := mapOpt_filterMap (fun r => getItem r "id") F.lc
+    (fun x hx => (recordHasFields_some (s1 x hx)).1)
+  obtain ⟨hcm, _⟩ := mapOpt_filterMap (fun r => getItem r "metadata") F.lc
+    (fun x hx => (recordHasFields_some (s1 x hx)).2)
+  have mdAll : ∀ (l : List J), (∀ x ∈ l, mdObjOrNull x = true) →
+      (l.filterMap (fun r => getItem r "metadata")).all mdOk = true := by
+    intro l hl
+    rw [List.all_eq_true]
+    intro v hvm
+    simp only [List.mem_filterMap] at hvm
+    obtain ⟨x, hx, hgx⟩ := hvm
+    have := hl x hx
+    simpa [mdObjOrNull, hgx] using this
+  have hmdR := mdAll F.lr r3
+  have hmdC := mdAll F.lc s3
+  -- element type
+  have hnd : F.dt = .int ∨ F.dt = .float := by
+    have het := F.het
+    have hdt := F.hdt
+    simp only [numericElem, topLookup, het, Bool.or_eq_true, beq_iff_eq, Option.some.injEq] at hnum
+    rcases hnum with e | e
+    · rw [e] at hdt; left
+      have : dtypeOf (.str "int") = some DType.int := by decide
+      rw [this] at hdt; exact (Option.some.inj hdt).symm
+    · rw [e] at hdt; right
+      have : dtypeOf (.str "float") = some DType.float := by decide
+      rw [this] at hdt; exact (Option.some.inj hdt).symm
+  have het' : ∃ et, kvs.lookup "matrix_element_type" = some (.str et) ∧ loaderDtypes.contains et = true := by
+    have het := F.het
+    simp only [numericElem, topLookup, het, Bool.or_eq_true, beq_iff_eq, Option.some.injEq] at hnum
+    rcases hnum with e | e
+    · exact ⟨"int", by rw [het, e], by decide⟩
+    · exact ⟨"float", by rw [het, e], by decide⟩
+  obtain ⟨et, hetl, hetc⟩ := het'
+  -- data
+  have hdata := F.hdata
+  obtain ⟨l, hdv⟩ : ∃ l, F.dv = .arr l := by
+    simp only [dataIsList, topLookup, hdata] at hdl
+    cases hdv : F.dv <;> rw [hdv] at hdl <;> simp at hdl
+    exact ⟨_, rfl⟩
+  obtain ⟨g, hg, hgl, hgr⟩ := matrixOf_ok F hnd hdv
+  have hk := F.hkeys
+  obtain ⟨vt, hvt⟩ := Option.isSome_iff_exists.1 (hk "type" (by simp [requiredKeys]))
+  obtain ⟨vd, hvd⟩ := Option.isSome_iff_exists.1 (hk "date" (by simp [requiredKeys]))
+  obtain ⟨vg, hvg⟩ := Option.isSome_iff_exists.1 (hk "generated_by" (by simp [requiredKeys]))
+  have hidsR : idsOf (.obj kvs) "rows" = F.lr.filterMap (fun r => getItem r "id") := by simp [idsOf, hR]
+  have hidsC : idsOf (.obj kvs) "columns" = F.lc.filterMap (fun r => getItem r "id") := by simp [idsOf, hC]
+  have hload : loadJson (.obj kvs) =
+      some { obs := F.lr.filterMap (fun r => getItem r "id"),
+             samp := F.lc.filterMap (fun r => getItem r "id"), grid := g } := by
+    unfold loadJson
+    simp only [topLookup, F.hcols, F.hrows, Option.bind_some, F.hic, F.hir, hco, hcm, hro, hrm, hetl, hvt,
+      hdata, hvd, F.hshape, hvg, hetc, hmdC, hmdR, r4, s4, Bool.and_self, if_true, hrol, hcol, hdv, hg]
+  refine ⟨_, hload, hidsR.symm, hidsC.symm, ?_, ?_, ?_, ?_, ?_⟩
+  · simp only [idsAreStrings, hidsR, hidsC, Bool.and_eq_true] at hids
+    exact hids
+  · simp [declShape, topLookup, F.hshape, hrol, hcol, F.hnr, F.hnc]
+  · simp [hgl, hrol]
+  · intro r hr; simp [hgr r hr, hcol]
+  · simp [declaredGrid, topLookup, hdata, hdv, hrol, hcol, hg]
+
+/-- `"data": ""` — an empty string iterates like an empty list, so the validator accepts it, and
+    the constructor refuses it ("Unknown input type"): the `dataIsList` guard is needed. -/
+theorem valid_json_unloadable_witness :
+    validateJson (fun _ => true) (apply (.setData (.str "")) (docOf
+      { obs := ["o1"], samp := ["s1"], omd := [.null], smd := [.null], grid := [[0]], ttype := "OTU table",
+        tableId := "None", generatedBy := "w", date := "2011-12-19" })) = .valid ∧
+    loadJson (apply (.setData (.str "")) (docOf
+      { obs := ["o1"], samp := ["s1"], omd := [.null], smd := [.null], grid := [[0]], ttype := "OTU table",
+        tableId := "None", generatedBy := "w", date := "2011-12-19" })) = none := by decide
+
 /-! ### HDF5: what the validator does check -/
 
 theorem attrCheck_true {h : H5} {k : String} {f : AVal → Option Bool} (hc : attrCheck h k f = some true) :
